@@ -88,7 +88,7 @@ STRENGTHENED.update({
     "C16-m": "sub-check 'blocks': zonal.mean on ten equally shaped time-step blocks of 1.44 million pixels evaluated by 8-16 threads at once, three times, against the in-memory result",
     "C18-n": "croo on long records (130..1000 steps, current run of 127..1000 members) stored in uint8 / int8 / int16 / int32 / int64 cubes, rotated / reversed stored order",
     "C20-m": "sub-check 'buffers': the caller's template / label arrays refilled in place between whitint calls (oracle: brand-new arrays of the same content); results handed out earlier re-compared",
-    "C06-n": "NOT yet caught: the relative stop test of the envelope iteration shows in about 0.4 % of low-amplitude series shifted by +-9000 (3 of 800 in the author's demo) - too rare for the quick budget of C06's offset relation; see DESIGN section 12, round 7",
+    "C06-n": "family 'small_signal_far_offset' in the offset relation: 800 pgu pairs per quick run with a seasonal signal of 5..60 counts shifted by +-9000..9800 (a violating pair comes up about once in 270 such cases)",
     "C13-n": "NOT yet caught: compiled float32 .sum() (sequential) vs NumPy's pairwise summation differ by 1e-4 .. 1e-2 only for windows of 1e4 .. 1e6 float32 cells; C13's large inputs are integer-valued (exact in both) - see DESIGN section 12, round 7"})
 FIRST = {k: "missed" for k in STRENGTHENED}  # result of the first evaluation, before the strengthening the seed prompted
 SUPERSEDED = {
